@@ -207,13 +207,15 @@ Definition drop (i : nat) (pending : list (nat * op)) : list (nat * op) :=
 
 (* READS FIRST.  A read-only request that may be linearised now, whose response matches and that leaves the store as
    it is, can be taken at once: moving it to the front of any linearisation keeps it valid -- provided it is
-   store-preserving WHEREVER it stands.  A reader changes the store only through the gate's provisioning; when the
-   history contains no request that can remove a home ([homes_stay]) a provisioning that is a no-op now stays one.
-   (A write that happens to change nothing in the current state must NOT be taken greedily.) *)
+   store-preserving WHEREVER it stands.  A reader changes the store only through the gate's provisioning; when no
+   PENDING request can remove a home ([homes_stay]) a provisioning that is a no-op now stays one in every
+   continuation.  (A write that happens to change nothing in the current state must NOT be taken greedily, nor the
+   handler of a reader whose provisioning would still create something.) *)
 Definition is_reader (r : request) : bool := match hmode r with Rd => true | Wr => false end.
 Definition removes_home (r : request) : bool :=
   match r with RDelete p _ => Nat.leb (length p) 1 | _ => false end.
-Definition homes_stay (ops : list op) : bool := negb (existsb (fun o => removes_home (snd (op_req o))) ops).
+Definition homes_stay (pending : list (nat * op)) : bool :=
+  negb (existsb (fun x => removes_home (snd (op_req (snd x)))) pending).
 
 Fixpoint find_pure (step : store -> ureq -> store * response) (s : store) (cs : cstore)
                    (pending cands : list (nat * op)) : option nat :=
@@ -236,7 +238,7 @@ Definition seen (m : memo) (ids pr : list nat) (cs : cstore) : bool :=
 
 (* depth-first search with a budget of visited nodes and a memo of failed states:
    (found, budget left, memo); (false, 0, _) = gave up *)
-Fixpoint lin_b (fuel : nat) (w : cworld) (greedy : bool) (obs_store : cstore) (s : store) (pending : list (nat * op))
+Fixpoint lin_b (fuel : nat) (w : cworld) (obs_store : cstore) (s : store) (pending : list (nat * op))
                (budget : N) (m : memo) : bool * N * memo :=
   match pending with
   | [] => (cstore_eqb (canon_store s) obs_store, budget, m)
@@ -247,8 +249,8 @@ Fixpoint lin_b (fuel : nat) (w : cworld) (greedy : bool) (obs_store : cstore) (s
           let cs := canon_store s in
           let ids := map fst pending in
           if seen m ids [] cs then (false, budget, m) else
-          match (if greedy then find_pure (ureq_spec w) s cs pending pending else None) with
-          | Some i => lin_b f w greedy obs_store s (drop i pending) budget m
+          match (if homes_stay pending then find_pure (ureq_spec w) s cs pending pending else None) with
+          | Some i => lin_b f w obs_store s (drop i pending) budget m
           | None =>
           let '(ok, b, m') :=
           (fix try (cands : list (nat * op)) (budget : N) (m : memo) : bool * N * memo :=
@@ -259,7 +261,7 @@ Fixpoint lin_b (fuel : nat) (w : cworld) (greedy : bool) (obs_store : cstore) (s
                  if minimal x pending then
                    let '(s1, o) := ureq_spec w s (op_req (snd x)) in
                    if cresp_eqb (canon o) (op_resp (snd x)) then
-                     let '(ok, b', m') := lin_b f w greedy obs_store s1 (drop (fst x) pending) (N.pred budget) m in
+                     let '(ok, b', m') := lin_b f w obs_store s1 (drop (fst x) pending) (N.pred budget) m in
                      if ok then (true, b', m') else try rest b' m'
                    else try rest budget m
                  else try rest budget m
@@ -289,8 +291,7 @@ Fixpoint lin_s (fuel : nat) (w : cworld) (obs_store : cstore) (s : store) (pendi
           let cs := canon_store s in
           let ids := map fst pending in
           if seen m ids proved cs then (false, budget, m) else
-          (* the handler section of a reader never changes the store: always safe to take first *)
-          match find_pure (ureq_body w) s cs pending pending with
+          match (if homes_stay pending then find_pure (ureq_spec w) s cs pending pending else None) with
           | Some i => lin_s f w obs_store s (drop i pending) proved budget m
           | None =>
           let '(ok, b, m') :=
@@ -328,7 +329,7 @@ Fixpoint lin_s (fuel : nat) (w : cworld) (obs_store : cstore) (s : store) (pendi
 Definition lin_verdict (w : cworld) (setup : list ureq) (ops : list op) (obs_store : cstore) (budget : N) : N :=
   let s0 := fst (run_spec w empty_store setup) in
   let pending := index_from 0 ops in
-  let '(ok, b, _) := lin_b (S (length ops)) w (homes_stay ops) obs_store s0 pending budget [] in
+  let '(ok, b, _) := lin_b (S (length ops)) w obs_store s0 pending budget [] in
   if ok then 0 else
   let '(ok2, b2, _) := lin_s (2 * length ops + 1) w obs_store s0 pending [] budget [] in
   if ok2 then 1 else if N.eqb b 0 || N.eqb b2 0 then 3 else 2.
